@@ -12,7 +12,7 @@ def split_state(s):
     parts = {}
     for seg in s.split(" | "):
         seg = seg.strip()
-        m = re.match(r"(L|O|pending|hpending):(.*)", seg)
+        m = re.match(r"(L|O|pending|hpending|apending):(.*)", seg)
         if m:
             parts[m.group(1)] = m.group(2).split()
         elif seg.startswith("Q1:"):
@@ -27,6 +27,10 @@ def split_state(s):
             kv = dict(x.split("=") for x in seg.split() if "=" in x)
             parts["hec"], parts["hempty"] = int(kv["hec"]), kv["hempty"]
             parts["hfreebad"] = "HFREE-SLOT-OCCUPIED" in seg
+        elif seg.startswith("aec="):
+            kv = dict(x.split("=") for x in seg.split() if "=" in x)
+            parts["aec"], parts["aempty"] = int(kv["aec"]), kv["aempty"]
+            parts["afreebad"] = "AFREE-SLOT-OCCUPIED" in seg
         elif seg.startswith("HL="):
             parts["HL"] = seg
         elif seg.startswith("remItems="):
@@ -85,7 +89,15 @@ def check_section(header, lines):
                 viol.append((tag, "queueEmptyCounter not restored after the exception (ec=%s): emptiness reporting and waiting are wrong" % A.get("ec")))
             if A.get("hec", 0) != 0:
                 viol.append((tag, "queueEmptyCounter of the heterogeneous queue not restored after the exception (ec=%s)" % A.get("hec")))
-            if A.get("freebad") or A.get("hfreebad"):
+            if A.get("aec", 0) != 0:
+                viol.append((tag, "queueEmptyCounter of the AnyData queue not restored after the exception (ec=%s)" % A.get("aec")))
+            apa, apb = A.get("apending", []), B.get("apending", [])
+            it = iter(apb)
+            if not all(any(x == y for y in it) for x in apa):
+                viol.append((tag, "pending events of the AnyData queue after the exception are not a subsequence of those before: %s -> %s" % (apb, apa)))
+            if "aempty" in A and (A.get("aempty") == "1") != (len(apa) == 0):
+                viol.append((tag, "AnyData queue emptyQueue() = %s with pending %s" % (A.get("aempty"), apa)))
+            if A.get("freebad") or A.get("hfreebad") or A.get("afreebad"):
                 viol.append((tag, "a recycled slot still holds an object"))
             hpa, hpb = A.get("hpending", []), B.get("hpending", [])
             it = iter(hpb)
@@ -100,7 +112,8 @@ def check_section(header, lines):
                 viol.append((tag, "pending events after the exception are not a subsequence of those before: %s -> %s" % (pb, pa)))
             if (A.get("emptyQueue") == "1") != (len(pa) == 0):
                 viol.append((tag, "emptyQueue() = %s with pending %s" % (A.get("emptyQueue"), pa)))
-            dpend = (len(pa) - len(pb)) + (sum(1 for x in hpa if x.startswith("P")) - sum(1 for x in hpb if x.startswith("P")))
+            dpend = (len(pa) - len(pb)) + (sum(1 for x in hpa if x.startswith("P")) - sum(1 for x in hpb if x.startswith("P"))) + (
+                sum(1 for x in apa if x != "<empty-slot>") - sum(1 for x in apb if x != "<empty-slot>"))
             if c["dp"] != dpend:
                 viol.append((tag, "payload objects leaked or over-released: live payloads %+d, pending events %+d" % (c["dp"], dpend)))
             if c["dcb"] != 0:
@@ -119,8 +132,8 @@ def fault_suite(ctx, search=False, only=None, nq=12, nt=150):
     if not ok:
         return
     rule0 = ctx.rule
-    ctx.rule = ("for %s generated states x 31 operations (callback-list add/insert/assign/copy/invoke, queue appendListener/prependListener/enqueue/peekEvent/takeEvent/clearEvents/dispatch/process/processOne/processIf/processUntil/copy, "
-                "HeterEventQueue appendListener/enqueue/process/processOne/processIf with events of two prototypes, ScopedRemover / CounterRemover / ConditionalRemover add, HeterCallbackList append/assign): the k-th allocation, callback copy, callback call, payload copy, payload move, predicate call, "
+    ctx.rule = ("for %s generated states x 34 operations (callback-list add/insert/assign/copy/invoke, queue appendListener/prependListener/enqueue/peekEvent/takeEvent/clearEvents/dispatch/process/processOne/processIf/processUntil/copy, "
+                "HeterEventQueue appendListener/enqueue/process/processOne/processIf with events of two prototypes, an EventQueue of AnyData<32> (enqueue lvalue / temporary, process), ScopedRemover / CounterRemover / ConditionalRemover add, HeterCallbackList append/assign): the k-th allocation, callback copy, callback call, payload copy, payload move, predicate call, "
                 "filter call throws, for EVERY k until the operation completes unfaulted (exhaustive in k per state and operation); distinct = distinct (state, operation, fault point); "
                 "non-trivial = the fault fired and the exception reached the caller") % (str(nq) if quick else str(nt))
     if only == "ledger":
